@@ -117,7 +117,17 @@ class Tr:
         if k == 'IntegerLiteral':
             return n['value']
         if k in ('DeclRefExpr', 'MemberExpr') and self.is_plain_lvalue(n):
+            if self.key(n) in self.h.get('bools', ()):            # bool promoted to an integer
+                return '(if %s then 1 else 0)' % self.get(env, self.key(n))
             return self.get(env, self.key(n))
+        if k == 'CXXMemberCallExpr' and self.callee(n) in ('data', 'size'):
+            m0 = strip(n['inner'][0])
+            try:
+                kk = self.key(m0['inner'][0]) + '.' + m0['name']
+            except TranslateError:
+                kk = None
+            if kk in env.v:
+                return env.v[kk]
         if k == 'UnaryOperator' and n.get('opcode') in ('++', '--'):
             key = self.key(n['inner'][0])
             old = self.get(env, key)
@@ -201,6 +211,8 @@ class Tr:
                 return '((%s) == [])' % self.str(obj, env)
         if k == 'DeclRefExpr':
             return self.get(env, self.key(n))
+        if k == 'CXXBoolLiteralExpr':
+            return 'true' if n.get('value') else 'false'
         raise TranslateError('boolean expression not supported: %s %s' % (k, n.get('opcode', '')))
 
     def is_char(self, n):
@@ -274,6 +286,19 @@ class Tr:
         k = e.get('kind')
         if k == 'UnaryOperator' and e.get('opcode') in ('++', '--'):
             self.nat(e, env)
+            return self.block(rest, env, ret, fall)
+        if k == 'BinaryOperator' and e.get('opcode') == '=' and strip(e['inner'][0]).get('kind') == 'DeclRefExpr':
+            key = self.key(e['inner'][0])
+            kind = self.h['locals'].get(key)
+            if kind not in ('nat', 'bool'):
+                raise TranslateError('assignment to %r: not an integer/bool local of the translator hints' % key)
+            env.v[key] = (self.nat if kind == 'nat' else self.bool)(e['inner'][1], env)
+            return self.block(rest, env, ret, fall)
+        if k == 'CXXMemberCallExpr' and self.callee(e) == 'OnName':
+            arg = strip(e['inner'][1])
+            if arg.get('kind') not in ('CXXTemporaryObjectExpr', 'CXXConstructExpr') or len(arg['inner']) != 2:
+                raise TranslateError('OnName argument is not StringRef(ptr, size)')
+            env.v['emit'] = '(some (%s, %s))' % (self.nat(arg['inner'][0], env), self.nat(arg['inner'][1], env))
             return self.block(rest, env, ret, fall)
         if k == 'CXXOperatorCallExpr' and self.callee(e) in ('operator=', 'operator+='):
             key = self.lkey(e['inner'][1], env)
@@ -399,6 +424,57 @@ def gen_nameprovider(docs):
     term = tr.block(body_of(fn), env, ret, lambda e: (_ for _ in ()).throw(TranslateError('name() falls off the end')))
     return ['/-- `NameProvider::name(index, i2)`: `data` = bytes of the names file, `offs` = `names_` as offsets into it -/\n'
             'def npName (data : List Char) (offs : List Nat) (gen gen2 : List Char) (index i2 : Nat) : List Char :=\n  %s\n' % term]
+
+
+def gen_readnames(d_read, d_handler, d_prov):
+    """`internal::ReadNames` (include/mp/nl-reader.h): initial state, the loop body as a step function, the final
+    missing-newline test; `NameHandler::OnName` and the end pointer pushed by `NameProvider::ReadNames` (src/nl-reader.cc)"""
+    fn = find_method(d_read, None, 'ReadNames', kinds=('FunctionDecl',))
+    b = _only(body_of(fn))
+    names = [x['inner'][0]['name'] for x in b[:4] if x.get('kind') == 'DeclStmt']
+    if names != ['in_win_newline', 'line', 'start', 'end'] or len(b) != 6 or b[4].get('kind') != 'ForStmt' or b[5].get('kind') != 'IfStmt':
+        raise TranslateError('internal::ReadNames changed shape: %r' % names)
+    tr = Tr(d_read, {'locals': {'in_win_newline': 'bool', 'line': 'nat', 'start': 'nat'}, 'bools': {'in_win_newline'}})
+    cr0 = tr.bool(b[0]['inner'][0]['inner'][0], Env())
+    line0 = tr.nat(b[1]['inner'][0]['inner'][0], Env())
+    st = strip(b[2]['inner'][0]['inner'][0])
+    if not (st.get('kind') == 'CXXMemberCallExpr' and tr.callee(st) == 'data'):
+        raise TranslateError('ReadNames: start is not data.data()')
+    en = strip(b[3]['inner'][0]['inner'][0])
+    if not (en.get('kind') == 'BinaryOperator' and en.get('opcode') == '+' and tr.key(en['inner'][0]) == 'start' and tr.callee(strip(en['inner'][1])) == 'size'):
+        raise TranslateError('ReadNames: end is not start + data.size()')
+    loop = b[4]
+    init, _, cond, inc, body = (loop['inner'] + [None] * 5)[:5]
+    c, i = strip(cond), strip(inc)
+    iv = init['inner'][0] if init and init.get('kind') == 'DeclStmt' else {}
+    if not (iv.get('name') == 'ptr' and tr.key(iv['inner'][0]) == 'start' and c.get('opcode') == '!=' and tr.key(c['inner'][0]) == 'ptr'
+            and tr.key(c['inner'][1]) == 'end' and i.get('opcode') == '++' and tr.key(i['inner'][0]) == 'ptr'):
+        raise TranslateError('ReadNames: loop header is not for (ptr = start; ptr != end; ++ptr)')
+    env = Env({'ptr': 'ptr', 'start': 'start', 'in_win_newline': 'cr', 'line': 'line', 'emit': '(none : Option (Nat × Nat))'})
+    step = tr.block([body], env, None, lambda e: '(%s, %s, %s, %s)' % (e.v['emit'], e.v['start'], e.v['in_win_newline'], e.v['line']))
+    tail = b[5]
+    tcond = tr.bool(tail['inner'][0], Env({'start': 'start', 'end': 'end_'}))
+    if 'CXXThrowExpr' not in json.dumps(tail['inner'][1]):
+        raise TranslateError('ReadNames: the final test no longer throws')
+    out = ['/-- `internal::ReadNames`: initial `in_win_newline`, `line` -/\ndef readNamesInit : Bool × Nat := (%s, %s)\n' % (cr0, line0),
+           '/-- one iteration of the scan loop at offset `ptr`: (name reported to the handler as (offset, size), start, in_win_newline, line) -/\n'
+           'def readNamesStep (data : List Char) (ptr start : Nat) (cr : Bool) (line : Nat) : Option (Nat × Nat) × Nat × Bool × Nat :=\n  %s\n' % step,
+           '/-- the `missing newline` error test after the loop -/\ndef readNamesMissingNewline (start end_ : Nat) : Bool :=\n  %s\n' % tcond]
+    # NameHandler::OnName : name_ = name; names_.push_back(name.data());
+    fn = find_method(d_handler, 'NameHandler', 'OnName')
+    hb = _only(body_of(fn))
+    if len(hb) != 2 or _call_name(hb[1]) != 'push_back' or 'data' not in json.dumps(hb[1]) or 'name_' not in json.dumps(hb[0]):
+        raise TranslateError('NameHandler::OnName changed shape')
+    # NameProvider::ReadNames : ... names_.push_back(last_name.data() + last_name.size() + 1)
+    fn = find_method(d_prov, 'NameProvider', 'ReadNames')
+    pb = [x for x in _only(body_of(fn)) if _call_name(x) == 'push_back']
+    if len(pb) != 1:
+        raise TranslateError('NameProvider::ReadNames: expected exactly one push_back')
+    trp = Tr(d_prov, {'locals': {}})
+    arg = strip(pb[0])['inner'][1]
+    term = trp.nat(arg, Env({'last_name.data': 'ld', 'last_name.size': 'lsz'}))
+    out.append('/-- the extra end pointer `NameProvider::ReadNames` appends after the scan -/\ndef lastPtr (ld lsz : Nat) : Nat :=\n  %s\n' % term)
+    return out
 
 
 def gen_itemname(docs):
@@ -741,6 +817,10 @@ def main(repo, out, work):
     parts += gen_vcstring(d1)
     parts += gen_nameprovider(d2a)
     parts += gen_itemname(d2b)
+    d2c = clang_dump(os.path.join(work, 'c19_tu2.cc'), 'mp::internal::ReadNames', inc)
+    d2d = clang_dump(os.path.join(work, 'c19_tu2.cc'), 'internal::NameHandler', inc)
+    d2e = clang_dump(os.path.join(work, 'c19_tu2.cc'), 'mp::NameProvider::ReadNames', inc)
+    parts += gen_readnames(d2c, d2d, d2e)
     parts += gen_slack(d3)
     d5 = clang_dump(os.path.join(work, 'c19_tu4.cc'), 'mp::pre::AutoLinkScope', inc)
     d6 = clang_dump(os.path.join(work, 'c19_tu5.cc'), 'mp::FlatConverter::AutoLink', inc)
